@@ -128,6 +128,8 @@ def name_pools():
         "acyc": {"a": "aux_in_q", "s": "c0_q", "r": "c1_aux_in_q", "d": "aux_in_p", "b": "c0_aux_in_p"},
         "escaped": {"i0": "\\a[0]", "i1": "\\b+c", "g": "\\out[1]", "h": "\\sel", "i2": "sel", "a": "\\reset", "b": "reset", "s": "\\n_1", "c": "\\d,en", "d": "\\x;y"},
         "verilog": {"i0": "not_a", "i1": "and_a_b", "i2": "a", "h": "g_0"},
+        "acyc2": {"qn": "nq", "q": "q", "p": "n1", "r": "inv_r", "s": "and1", "u": "x_u", "v": "in_v", "f": "uf", "g": "a_g", "a1": "n_a1", "b2": "i2"},
+        "bench": {"i0": "buffer_en", "i1": "obuff", "i2": "BUFF_SEL", "g": "nand_out", "h": "xnor1", "a": "dffq", "b": "INPUTa", "s": "not_rdy", "c": "OUTPUTb", "d": "DFF_d"},
     }
 
 
@@ -180,6 +182,11 @@ def f_cyc():
     add("two_cuts_v_last", I("a", "b") + [("f", "or", ["v", "b"]), ("g", "xnor", ["v", "a"]), ("v", "nand", ["f", "g", "a"], True)])
     add("two_cuts_mixed", I("a", "b") + [("f", "nor", ["v", "b"]), ("v", "or", ["f", "g"], True), ("g", "and", ["v", "a"]), ("w", "xor", ["f", "g", "b"], True)])
     add("shared_load_three", I("a") + [("v", "xor", ["f", "g", "h"], True), ("f", "and", ["v", "a"]), ("g", "or", ["v", "a"]), ("h", "not", ["v"])])
+    # two loops in series with acyclic nodes between them (back edges of a node ordering that lie on no cycle are not feedback)
+    add("loops_in_series", I("en") + [("a1", "and", ["en", "a2"]), ("a2", "buf", ["a1"]), ("u", "not", ["a1"]), ("v", "buf", ["u"]),
+                                      ("b1", "and", ["v", "b3"]), ("b2", "or", ["v", "b1"]), ("b3", "xor", ["v", "b2"], True)])
+    add("loops_in_series_wide", I("en", "k") + [("a1", "or", ["en", "a2"]), ("a2", "and", ["a1", "k"]), ("u", "nand", ["a1", "k"]), ("v", "xor", ["u", "en"], True), ("w", "not", ["v"]),
+                                                ("b1", "nor", ["w", "b2", "v"]), ("b2", "and", ["w", "b1", "v"], True), ("o", "xnor", ["b1", "v", "w"], True)])
     S.append((("cyc", "feedthrough_output"), mkspec("feedthrough_output", [("s", "input", [], True), ("r", "input", []), ("q", "nor", ["r", "qn"], True), ("qn", "nor", ["s", "q"])])))
     return S
 
@@ -200,6 +207,43 @@ def rand_cyclic(rng, name):
     return s
 
 
+def rand_series(rng, name):
+    """two random loops in series: loop A -> chain of acyclic gates -> loop B; the chain nodes fan out into loop B"""
+    nodes, edges = [["i0", "input", False], ["i1", "input", False]], []
+    T2 = ["and", "or", "nand", "nor", "xor", "xnor"]
+
+    def loop(prefix, k, feeds):
+        ns = [f"{prefix}{j}" for j in range(k)]
+        for j, n in enumerate(ns):
+            nodes.append([n, rng.choice(T2), rng.random() < 0.3])
+            edges.append([ns[j - 1], n])  # ring (k >= 2)
+            for f in feeds:
+                if rng.random() < 0.7 or j == 0:
+                    edges.append([f, n])
+        return ns
+
+    A = loop("a", rng.randint(2, 3), ["i0"])
+    chain = []
+    prev = rng.choice(A)
+    for j in range(rng.randint(1, 3)):
+        n = f"m{j}"
+        t = rng.choice(["buf", "not"] + T2)
+        nodes.append([n, t, rng.random() < 0.3])
+        edges.append([prev, n])
+        if t in T2 and rng.random() < 0.6:
+            edges.append([rng.choice(["i0", "i1"]), n])
+        chain.append(n)
+        prev = n
+    B = loop("b", rng.randint(2, 3), chain[-2:] if rng.random() < 0.5 else chain[-1:])
+    nodes.append(["o", rng.choice(T2), True])
+    edges += [[rng.choice(B), "o"], ["i1", "o"]]
+    es = []
+    for e in edges:
+        if e not in es:
+            es.append(e)
+    return {"name": name, "nodes": nodes, "edges": es, "bbs": {}}
+
+
 def f_rand_cyc(seed, count):
     import networkx as nx
     from cgv.net import Net
@@ -210,7 +254,7 @@ def f_rand_cyc(seed, count):
     while len(out) < count and tries < count * 20:
         tries += 1
         rng = random.Random(f"cgv-cyc-{seed}-{tries}")
-        s = rand_cyclic(rng, f"rcyc{tries}")
+        s = rand_series(rng, f"rser{tries}") if tries % 4 == 0 else rand_cyclic(rng, f"rcyc{tries}")
         n = Net.from_spec(s)
         if not n.is_acyclic() and not any(u == v for u, v in s["edges"]):
             out.append((("randcyc", seed, tries), s))
@@ -263,6 +307,8 @@ def f_bb():
     n3, e3 = pins("f2", FF, {"clk": "clk", "d": "a", "q": "q2"})
     add("clock_fanout", I("clk", "a") + [("q0", "buf", []), ("q1", "buf", []), ("q2", "buf", []), ("g", "and", ["clk", "q1"]), ("o", "xor", ["g", "q2", "a"], True)] + n1 + n2 + n3,
         {"f0": FF, "f1": FF, "f2": FF}, e1 + e2 + e3)
+    n1, e1 = pins("b0", BOX, {"p": "a", "r": "b", "y": "yb", "z": "zb"})  # z drives a named net that nothing reads (a spare QN)
+    add("box_out_dangling_net", I("a", "b") + [("yb", "buf", []), ("zb", "buf", []), ("o", "and", ["yb", "b"], True)] + n1, {"b0": BOX}, e1)
     n, e = pins("f0", FF, {"clk": "k1", "d": "k0", "q": "qb"})
     add("flop_consts", I("a") + [("k0", "0", []), ("k1", "1", []), ("qb", "buf", []), ("o", "or", ["qb", "a"], True)] + n, {"f0": FF}, e)
     return S
@@ -273,7 +319,10 @@ def f_bb_dotted():
     BOXD = ["boxd", ["data.d", "en"], ["data.q"]]
     nodes = [("a", "input", []), ("b", "input", []), ("qd", "buf", []), ("o", "and", ["qd", "a"], True),
              ("r0.data.d", "bb_input", ["a"]), ("r0.en", "bb_input", ["b"]), ("r0.data.q", "bb_output", [])]
-    return [(("bb", "dotted_pins"), mkspec("dotted_pins", nodes, edges=[("r0.data.q", "qd")], bbs={"r0": BOXD}))]
+    # an ordinary gate whose name carries the instance prefix but is not a pin of the box (lint accepts it: the instance exists)
+    nodes2 = nodes + [("r0.n1", "xor", ["a", "b"]), ("o2", "or", ["r0.n1", "qd"], True)]
+    return [(("bb", "dotted_pins"), mkspec("dotted_pins", nodes, edges=[("r0.data.q", "qd")], bbs={"r0": BOXD})),
+            (("bb", "dotted_nonpin"), mkspec("dotted_nonpin", nodes2, edges=[("r0.data.q", "qd")], bbs={"r0": BOXD}))]
 
 
 def f_rand_bb(seed, count):
@@ -305,10 +354,11 @@ def f_rand_bb(seed, count):
                     extra_edges.append([f"{inst}.{p_}", w])
                     # feed a multi-input gate later in the list (keeps the graph acyclic: the buffer has no other fan-in)
                     tgt = [g for g in gates if dict((n[0], n[1]) for n in s["nodes"])[g] in GATES2]
-                    if tgt and rng.random() < 0.8:
+                    r_ = rng.random()
+                    if tgt and r_ < 0.75:
                         extra_edges.append([w, rng.choice(tgt)])
-                    else:
-                        extra_nodes[-1][2] = True
+                    elif r_ < 0.88 or not extra_nodes[-1][2]:
+                        extra_nodes[-1][2] = r_ < 0.88  # otherwise: a named net on the pin that nothing reads and that is not an output
         spec = {"name": s["name"], "nodes": [list(n) for n in s["nodes"]] + extra_nodes, "edges": [list(e) for e in s["edges"]] + extra_edges, "bbs": bbs}
         from cgv.net import Net
         if Net.from_spec(spec).is_acyclic():
@@ -342,6 +392,10 @@ def seq_circuits():
                                     {"r0": ("d", "q")}, FF, "d", "q", {"clk": "clk"}), "d", "q"))
     S.append((("seq", "io_input"), mk("io_input", [("clk", "input", []), ("en", "input", [], True), ("a", "input", [])] + [("q", "buf", []), ("d", "and", ["en", "a", "q"]), ("o", "or", ["q", "en"], True)],
                                       {"r0": ("d", "q")}, FF, "d", "q", {"clk": "clk"}), "d", "q"))
+    # unobserved logic: a gate that nothing reads and that is no output, fed by an input / a flop output with no other load
+    S.append((("seq", "dead_logic"), mk("dead_logic", I("clk", "a", "spare") + [("q0", "buf", []), ("q1", "buf", []), ("d0", "xor", ["a", "q0"]), ("d1", "buf", ["q0"]),
+                                                                                   ("dead", "and", ["spare", "a"]), ("dead2", "not", ["q1"]), ("o", "not", ["q0"], True)],
+                                        {"r0": ("d0", "q0"), "r1": ("d1", "q1")}, FF, "d", "q", {"clk": "clk"}), "d", "q"))
     CKDQ = ["dff", ["CK", "D"], ["Q"]]
     S.append((("seq", "cnt3"), mk("cnt3", I("CK", "inc") + [("s0", "buf", []), ("s1", "buf", []), ("s2", "buf", []),
                                                              ("n0", "xor", ["s0", "inc"]), ("c0", "and", ["s0", "inc"]), ("n1", "xor", ["s1", "c0"]), ("c1", "and", ["s1", "c0"]),
